@@ -37,6 +37,7 @@ func genC04(t *rapid.T) C04Case {
 		cfg.RichLits = true
 		cfg.StringCalls = true
 		cfg.BlockReturn = true
+		cfg.Attribs = true
 		cfg.Bitops = true
 		cfg.MaxStats = 8
 		cfg.Prefix = fmt.Sprintf("f%d", i)
